@@ -29,4 +29,28 @@ PROPS = {
         "text": "The list of as_* methods, From/TryFrom impls, extend/truncate is extracted from the working tree (880 conversions); each is run over the complete source lattice (all values of 8/16-bit sources, boundary lattices for wider ones, every f32 bit pattern for f32->integer casts) rotated through / isolated in every lane and compared with the primitive conversion; pure moves are compared bit-for-bit on tagged lanes.",
         "note": TRUST + "; raw-register conversions are excluded as the statement says; 32/64-bit and f64 sources are covered on boundary lattices only",
     },
+    "C15": {
+        "quick": ["sse2", "scalar"], "thorough": ["sse2", "scalar", "coresimd"],
+        "level": "model_checking", "engine": "E2-stateright + E1-sweep",
+        "technique": "explicit-state BFS to fixpoint over real mask operations with a [bool;N] reference model; exhaustive lattice enumeration for cmp*/select",
+        "design_ref": "DESIGN.md §3 C15",
+        "text": "Per mask type a stateright model (state = raw bytes of a real mask + [bool;N] reference; transitions set/&/|/^/! with all 2^N operands in operator and assign forms, xor with comparison results whose operands carry garbage hidden lanes) is explored to its fixpoint; the invariant checks every observer incl. panics on invalid indices in every state. cmp* of all 40 numeric vector types are enumerated on lattice^2 x lane isolation against the primitive comparison, select on all 2^N masks x tagged operands bit-for-bit.",
+        "note": TRUST + "; the public u32 fields of the scalar-math BVec3A/BVec4A are not written directly (states reachable through the boolean API and comparisons only)",
+    },
+    "C16": {
+        "quick": ["sse2", "scalar"], "thorough": ["sse2", "scalar", "coresimd"],
+        "level": "exploration", "engine": "E1-sweep",
+        "technique": "exhaustive enumeration of every swizzle method (generated from the trait definitions of the tree) x implementing type x tagged input rounds, expected lanes derived from the method name",
+        "design_ref": "DESIGN.md §3 C16",
+        "text": "All 28+117+336 getters and all with_ setters of the 34 implementing types are called (list generated from the working tree) on 8 input rounds of tagged lanes (distinct NaN payloads, -0, extremes, equal lanes), Vec3A additionally with 8 hidden-lane contents; result lanes must be bit-identical to the lanes spelled by the method name; result types are fixed by the trait signatures the glue is compiled against.",
+        "note": TRUST + "; swizzles are pure data movement, so pairwise-distinct tagged lanes determine the permutation implemented",
+    },
+    "C17": {
+        "quick": ["sse2", "scalar"], "thorough": ["sse2", "scalar", "coresimd"],
+        "level": "model_checking", "engine": "E2-stateright",
+        "technique": "explicit-state BFS to fixpoint: write histories through every mutable access path on the real value vs an array model, every read path checked in every state",
+        "design_ref": "DESIGN.md §3 C17",
+        "text": "For each of the 40 vector types, Quat and DQuat a stateright model whose states hold the raw bytes of the real value and the model lanes; initial states are all constructor paths and named constants, actions write a value of the alphabet to a lane through field/IndexMut/AsMut/with_*/&mut index; the search runs to the fixpoint (all histories of every length over the alphabet) and every read path incl. Debug/Display is compared with the model in every state.",
+        "note": TRUST + "; lane values are limited to the write alphabet plus constructor tags and constants (the accessors are data movement, values are opaque to them)",
+    },
 }
